@@ -191,8 +191,11 @@ static void on_signal(int sig)
 static int64_t min_deadline(void)
 {
     int64_t d = -1;
+    /* Deadlines more than 50 (virtual) seconds away are what the scenarios use for "never": time
+     * does not leap to them (a wait that could only end that way is a hang, and is reported as one). */
+    const int64_t far = 50LL * 1000000000LL;
     for (int i = 0; i < nact; i++)
-        if (A[i].st == ST_BLOCKED && A[i].deadline >= 0 && (d < 0 || A[i].deadline < d))
+        if (A[i].st == ST_BLOCKED && A[i].deadline >= 0 && A[i].deadline - g_vclock <= far && (d < 0 || A[i].deadline < d))
             d = A[i].deadline;
     /* a runnable actor that polls the clock for a certain time: time must not leap past it
      * (until that actor has read the clock again) */
